@@ -158,7 +158,8 @@ MM = {
             assert(is_successor(&b0, s));
         }
     }""" % {'FRM': FRM},
-    'expect': {'loops': []},
+    'expect': {'loops': [], 'contains': ['board.unset_pawn_double_move(zobrist_hasher)', 'if piece.kind == King', 'else if piece.kind == Pawn', 'contains("a8")', 'contains("h8")', 'contains("a1")', 'contains("h1")',
+                                         'board.move_piece(start_pair, end_pair, zobrist_hasher)', 'player_move.len() == 5', 'WHITE_KING_SIDE_CASTLE_STRING', 'WHITE_QUEEN_SIDE_CASTLE_STRING', 'BLACK_KING_SIDE_CASTLE_STRING', 'BLACK_QUEEN_SIDE_CASTLE_STRING', 'board.swap_color(zobrist_hasher)']},
 }
 P = ('C04', 'C05')
 
